@@ -126,7 +126,7 @@ def is_float_lit(text):
 MATH_FUNCS = {'cos': 'vcos', 'sin': 'vsin', 'exp': 'vexp', 'log': 'vlog', 'sqrt': 'vsqrt', 'tanh': 'vtanh',
               'asin': 'vasin', 'acos': 'vacos', 'atan': 'vatan', 'erf': 'verf', 'abs': 'vabs', 'fabs': 'vabs',
               'pow': 'vpow'}
-C_KEYWORDS = {'if', 'else', 'for', 'while', 'do', 'return', 'switch', 'case', 'default', 'break', 'continue', 'int',
+C_KEYWORDS = {'if', 'else', 'for', 'while', 'do', 'return', 'switch', 'case', 'default', 'break', 'continue', 'int', 'const',
               'Sc', 'void', 'long', 'unsigned'}
 PRELUDE_IDS = {'LIT', 'SCAST', 'GHOST_MSG', 'GHOST_EXIT', 'vpowi', 'vinv', 'pi', 'PI', 'ghost_nan', 'VF_EPS',
                'VF_NAN'} | set(MATH_FUNCS.values())
@@ -297,7 +297,7 @@ def msg_class(strings):
     return c
 
 
-def rewrite_body(body, cls, decl, fname, args, all_method_cnames, extra_ids=()):
+def rewrite_body(body, cls, decl, fname, args, all_method_cnames, extra_ids=(), ghost_capture=()):
     """apply the rule table to one function body; returns (c_text, hits, notes, writes, calls)"""
     hits = {}
     notes = []
@@ -307,7 +307,7 @@ def rewrite_body(body, cls, decl, fname, args, all_method_cnames, extra_ids=()):
     def hit(r, n=1):
         hits[r] = hits.get(r, 0) + n
 
-    toks = tokenize(body)
+    toks = [t_ for t_ in tokenize(body) if t_[0] != 'nl']     # line structure is re-created when rendering
     vals = lambda: [v for _, v in toks]
 
     # ---- rule U: using-declarations and std:: qualifiers
@@ -554,7 +554,11 @@ def rewrite_body(body, cls, decl, fname, args, all_method_cnames, extra_ids=()):
     while i < len(toks):
         if toks[i][1] in decl.vectors and i + 4 < len(toks) and toks[i + 1][1] == '.' and toks[i + 2][1] == 'size' \
                 and toks[i + 3][1] == '(' and toks[i + 4][1] == ')':
-            out.append(('id', toks[i][1] + '_size'))
+            prev2 = [t_[1] for t_ in out[-2:]]
+            prev4 = [t_[1] for t_ in out[-4:]]
+            as_int = prev2 == ['int', '('] or prev4 == ['(', 'int', ')', '(']
+            # an int context (loop bound) gets the int length, arithmetic gets its real-valued twin V_size_r (CBMC cannot convert a symbolic int to a rational)
+            out.append(('id', toks[i][1] + ('_size' if as_int else '_size_r')))
             hit('V')
             i += 5
             continue
@@ -671,11 +675,11 @@ def rewrite_body(body, cls, decl, fname, args, all_method_cnames, extra_ids=()):
 
     # ---- final vetting: every identifier must be known
     known = set(C_KEYWORDS) | PRELUDE_IDS | set(decl.scalars) | set(decl.ints) | set(decl.vectors) | \
-        {v + '_size' for v in decl.vectors} | set(local_types) | {n for (_, n, _) in args} | set(all_method_cnames) | \
+        {v + '_size' for v in decl.vectors} | {v + '_size_r' for v in decl.vectors} | set(local_types) | {n for (_, n, _) in args} | set(all_method_cnames) | \
         set(extra_ids) | {'VF_SETVAR'}
     for idx, (k, v) in enumerate(toks):
         if k == 'id':
-            if v.startswith('__CPROVER_uninterpreted_'):
+            if v.startswith('__CPROVER_uninterpreted_') or v.startswith('LOOP_'):
                 continue
             if v not in known:
                 raise ExtractionBreak('%s: identifier %r is not a member, local, argument or prelude function '
@@ -687,13 +691,81 @@ def rewrite_body(body, cls, decl, fname, args, all_method_cnames, extra_ids=()):
         elif k == 'id' and v in ('new', 'delete', 'template', 'try', 'catch', 'throw'):
             raise ExtractionBreak('%s: C++ keyword %s' % (fname, v))
 
+    # ---- rule G: ghost capture of locals at return sites (instrumentation only: `ghost_<v> = <v> ;` before each return)
+    if ghost_capture:
+        gt = []
+        for idx_, (k_, v_) in enumerate(toks):
+            if k_ == 'id' and v_ == 'return':
+                cap = []
+                for gv in ghost_capture:
+                    cap += [('id', 'ghost_' + gv), ('op', '='), ('id', gv), ('op', ';')]
+                # a return that is the single statement of an if needs braces
+                gt += [('op', '{')] + cap
+                j_ = idx_
+                while toks[j_][1] != ';':
+                    j_ += 1
+                gt += toks[idx_:j_ + 1] + [('op', '}')]
+                hit('G')
+                skip_until = j_
+                gt.append(('skip', j_))
+                continue
+            gt.append((k_, v_))
+        # remove duplicated tokens (those between return and ;) marked by skip
+        out_ = []
+        i_ = 0
+        res_ = []
+        skip_to = -1
+        for idx_, (k_, v_) in enumerate(toks):
+            pass
+        # simpler second pass: rebuild directly
+        res_ = []
+        i_ = 0
+        while i_ < len(toks):
+            k_, v_ = toks[i_]
+            if k_ == 'id' and v_ == 'return':
+                j_ = i_
+                while toks[j_][1] != ';':
+                    j_ += 1
+                res_.append(('op', '{'))
+                for gv in ghost_capture:
+                    res_ += [('id', 'ghost_' + gv), ('op', '='), ('id', gv), ('op', ';')]
+                res_ += toks[i_:j_ + 1] + [('op', '}')]
+                i_ = j_ + 1
+                continue
+            res_.append(toks[i_])
+            i_ += 1
+        toks = res_
+    # ---- loop contracts: LOOP_<cname>_<k> after the header of the k-th for/while loop (defined empty unless the spec defines it)
+    lt = []
+    i = 0
+    nloop = 0
+    while i < len(toks):
+        if toks[i][0] == 'id' and toks[i][1] in ('for', 'while') and i + 1 < len(toks) and toks[i + 1][1] == '(':
+            j = match_close(toks, i + 1)
+            if toks[i][1] == 'while' and j + 1 < len(toks) and toks[j + 1][1] == ';':
+                lt += toks[i:j + 1]
+                i = j + 1
+                continue
+            nloop += 1
+            lt += toks[i:j + 1] + [('id', 'LOOP_%s_%d' % (fname, nloop))]
+            i = j + 1
+            continue
+        lt.append(toks[i])
+        i += 1
+    toks = lt
+    if nloop:
+        hit('loops', nloop)
     # ---- render
     parts = []
+    depth_ = 0
     for k, v in toks:
-        if k == 'nl':
+        parts.append(v)
+        if v == '(':
+            depth_ += 1
+        elif v == ')':
+            depth_ -= 1
+        if (v == ';' and depth_ == 0) or v in ('{', '}'):
             parts.append('\n')
-        else:
-            parts.append(v)
     text = ''
     for p in parts:
         if p == '\n':
@@ -704,7 +776,7 @@ def rewrite_body(body, cls, decl, fname, args, all_method_cnames, extra_ids=()):
     return text, hits, notes, writes, calls
 
 
-def extract_class(src_path, header_path, cls, skip=('init_var',), only=None, extra_ids=()):
+def extract_class(src_path, header_path, cls, skip=('init_var',), only=None, extra_ids=(), ghost_capture=None):
     src = open(src_path).read()
     decl = parse_class_decl(open(header_path).read(), cls)
     funcs = []
@@ -737,7 +809,8 @@ def extract_class(src_path, header_path, cls, skip=('init_var',), only=None, ext
         f.body_src = body
         f.sha = hashlib.sha256(body.encode()).hexdigest()
         f.body_c, f.hits, f.notes, f.writes_registered, f.calls = rewrite_body(
-            body, cls, decl, cname, args, cnames, extra_ids)
+            body, cls, decl, cname, args, cnames, list(extra_ids) + ['ghost_' + g for g in (ghost_capture or {}).get(cname, ())],
+            ghost_capture=(ghost_capture or {}).get(cname, ()))
         funcs.append(f)
     return decl, funcs
 
@@ -756,7 +829,7 @@ def render_unit(cls, decl, funcs, spec_include, prelude='real.h', defines=()):
         o.append('int %s;' % m)
     for v in decl.vectors:
         o.append('#define VF_VECMAX 8')
-        o.append('Sc %s[VF_VECMAX]; int %s_size;' % (v, v))
+        o.append('Sc %s[VF_VECMAX]; int %s_size; Sc %s_size_r;   /* length as int and as its real-valued twin (contracts require them equal) */' % (v, v, v))
     o.append('#define VF_SETVAR(n, v) (n = (v))')
     o.append('#include "jets.h"')
     for f in funcs:
@@ -764,6 +837,8 @@ def render_unit(cls, decl, funcs, spec_include, prelude='real.h', defines=()):
     if spec_include:
         o.append('#include "%s"' % spec_include)
     for f in funcs:
+        for k_ in range(1, f.hits.get('loops', 0) + 1):
+            o.append('#ifndef LOOP_%s_%d\n#define LOOP_%s_%d\n#endif' % (f.cname, k_, f.cname, k_))
         o.append('#ifndef CONTRACT_%s\n#define CONTRACT_%s\n#define NOCONTRACT_%s 1\n#endif' % (f.cname, f.cname, f.cname))
         o.append('/* %s::%s  sha256(source body)=%s */' % (cls, f.name, f.sha))
         o.append('%s %s(%s)\nCONTRACT_%s\n{%s}\n' % (f.ret, f.cname, sig(f), f.cname, f.body_c))
